@@ -16,31 +16,7 @@ def _v(ctx, pid, what, data):
 
 
 # ------------------------------------------------------------------------------------------ C01: pictures
-def _pic_decode(pl):
-    """METADATA_BLOCK_PICTURE per the FLAC format specification (own decoder); raises W.Bad when the fields do not fit"""
-    p = 0
-
-    def u32():
-        nonlocal p
-        W.need(p + 4 <= len(pl), "picture: truncated field")
-        v = int.from_bytes(pl[p:p + 4], "big"); p += 4
-        return v
-
-    def take(n):
-        nonlocal p
-        W.need(p + n <= len(pl), "picture: %d bytes announced, %d left" % (n, len(pl) - p))
-        v = pl[p:p + n]; p += n
-        return v
-    typ = u32()
-    mime = take(u32())
-    try:
-        desc = take(u32()).decode("utf-8")
-    except UnicodeDecodeError as e:
-        raise W.Bad("picture: description is not UTF-8 (%s)" % e)
-    w, h, depth, colors = u32(), u32(), u32(), u32()
-    data = take(u32())
-    W.need(p == len(pl), "picture: %d bytes of slack after the picture data" % (len(pl) - p))
-    return (typ, mime.decode("latin-1"), desc, w, h, depth, colors, data)
+_pic_decode = W.flac_picture_decode
 
 
 PICS = [
@@ -225,6 +201,58 @@ def c08_ape_stale_fragments(ctx, checks):
                     _v(ctx, "C08", "%s: APEv2 header bytes remain glued to the audio after delete (stale header fragments before the tag)" % kname, d)
                 elif len(out) != len(body):
                     _v(ctx, "C08", "%s: delete left %d bytes behind the audio" % (kname, len(out) - len(body)), d)
+
+
+def c08_id3_delete_options(ctx, checks):
+    """ID3 delete with its keyword options, through the method (ID3.delete, EasyID3.delete, FileType tags.delete) and the
+    module-level function: the ID3v2 tag goes iff delete_v2, the ID3v1 tag goes iff delete_v1, the audio stays"""
+    if "C08" not in checks:
+        return
+    from mutagen.id3 import ID3, TIT2, delete as id3_delete
+    from mutagen.easyid3 import EasyID3
+    from mutagen.mp3 import MP3
+    mp3 = [d for s_, d in KINDS["MP3"].samples() if not s_.startswith("synth")]
+    if not mp3:
+        return
+    audio = mp3[0]
+    if audio[:3] == b"ID3":
+        audio = audio[W.id3v2_walk(audio)["size"]:]
+    if W.id3v1_at_end(audio):
+        audio = audio[:-128]
+    t = ID3(); t.add(TIT2(encoding=3, text=["delete options"]))
+    b = io.BytesIO(audio); t.save(b, v1=2); tagged = b.getvalue()
+    w0 = W.id3file(tagged)
+    v2len = w0["extra"]["tag_region"][1]
+    for dv1 in (True, False):
+        for dv2 in (True, False):
+            for how in ("function", "ID3.delete", "EasyID3.delete", "MP3.tags.delete"):
+                b = io.BytesIO(tagged)
+                try:
+                    if how == "function":
+                        id3_delete(b, delete_v1=dv1, delete_v2=dv2)
+                    elif how == "ID3.delete":
+                        ID3(io.BytesIO(tagged)).delete(b, delete_v1=dv1, delete_v2=dv2)
+                    elif how == "EasyID3.delete":
+                        EasyID3(io.BytesIO(tagged)).delete(b, delete_v1=dv1, delete_v2=dv2)
+                    else:
+                        MP3(io.BytesIO(tagged)).tags.delete(b, delete_v1=dv1, delete_v2=dv2)
+                except mutagen.MutagenError:
+                    continue
+                except TypeError:
+                    continue        # an entry point without these options
+                out = b.getvalue()
+                ctx.oracle_cases += 1
+                ctx.count("c08:id3-delete-options")
+                ctx.case(("id3-delete-options", dv1, dv2, how))
+                want = (b"" if dv2 else tagged[:v2len]) + audio + (b"" if dv1 else tagged[-128:])
+                if out != want:
+                    what = []
+                    if (out[:3] == b"ID3") != (not dv2):
+                        what.append("ID3v2 tag %s" % ("kept although delete_v2" if dv2 else "removed although delete_v2=False"))
+                    if W.id3v1_at_end(out) != (not dv1):
+                        what.append("ID3v1 tag %s" % ("kept although delete_v1" if dv1 else "removed although delete_v1=False"))
+                    _v(ctx, "C08", "ID3: %s(delete_v1=%s, delete_v2=%s) %s" % (how, dv1, dv2, "; ".join(what) or "changed other bytes"),
+                       {"kind": "ID3", "how": how, "delete_v1": dv1, "delete_v2": dv2, "len_after": len(out), "len_expected": len(want)})
 
 
 def c02_stray_tag_marker(ctx, checks):
@@ -579,7 +607,7 @@ OGG_SCENARIOS = (ogg_lacing_sweep, ogg_opus_trailer_sweep, ogg_foreign_paging)
 
 
 def run(ctx, checks, only=None):
-    for fn in only or ((c01_pictures, c09_easy, c08_ape_stale_fragments, c02_stray_tag_marker) + OGG_SCENARIOS):
+    for fn in only or ((c01_pictures, c09_easy, c08_ape_stale_fragments, c08_id3_delete_options, c02_stray_tag_marker) + OGG_SCENARIOS):
         try:
             fn(ctx, checks)
         except Exception as e:
